@@ -3,6 +3,13 @@
 import json, sys
 
 CLAIMED = {
+ "C13": dict(
+   category="exploration",
+   text="Packages generated from a grammar - every subset of up to 4 of 10 file atoms (static single document, multi-document file with an empty document, .gotmpl using .config, _helpers define + include, file under a conditional path, object with a CEL condition annotation, non-YAML file, nested directory, object with collision-protection / condition-map annotations, sibling path that sorts differently with and without '/') x 2 manifest phase orders x 2 configurations = 1 544 packages - are rendered by the real structural loader, validators, template and object renderer and phase collector (the calls PackageDeployer.Deploy makes). The build overlay routes every `range` over a map in packagerender and packagestructure through an explorer-controlled order: each package is rendered under the canonical order and under every permutation (all n! for n <= 4 keys) at one (quick) / two (thorough) executed range sites: ~104 000 renders quick. Oracle: all renders of a package yield the identical ObjectSetTemplateSpec and FNV hash; a reference renderer that knows the expected documents by construction demands every passing object exactly once, in the phase its annotation names, phases in manifest order, objects in path-then-document order, package labels present, control annotations gone. A second sub enumerates the complete template function map and intersects it with the clock / randomness / environment / network / host-file functions of sprig.",
+   design_ref="DESIGN.md §7 C13",
+   note="Trusted: range sites are listed in harness/hooks/vinstr.json (a new map range elsewhere is not permuted); sprig's keys/values return map-iteration order - a template using them without sortAlpha is outside the grammar (recorded in DESIGN.md).",
+   technique="bounded-exhaustive input enumeration with exhaustive map-iteration-order exploration (deviation-bounded) against a reference renderer",
+   engine="explore"),
  "C08": dict(
    category="model_checking",
    text="(a) Decision function through its public seam: one real ObjectDeployment pass over every pre-populated chain of 2 revisions (each revision: lifecycle Active/Paused/Archived x Paused condition x Available x objects {a},{b},{a,b} x control reported/unreported/none = 108 shapes; revisionHistoryLimit nil/0/1/2; newest matching the template or not) and of 3 revisions (quick: 24^3 shapes with fixed object sets; thorough: 108 x 108 x 72), with managed objects in the store consistent with the control relation: 97 632 passes quick. Every request of the pass is judged against the reference rule transcribed from the statement: a revision is switched to Archived only if its Paused condition is True at that instant, it is not the newest, and (a newer revision is Available, or it is itself not Available and controls nothing the next newer revision contains); deletes hit only the oldest max(0, |previous| - limit) previous revisions, never the newest. (b) Explicit-state BFS to closure over the real ObjectDeployment and ObjectSet controllers during T1{a,b} -> T2{a,c} (-> T1 thorough) handovers with workload status changes and GC: same oracle on every deployment pass, and no delete request ever hits an object that the newest revision contains.",
